@@ -115,7 +115,7 @@ func genCase(r *fw.Rand, big bool) fw.Case {
 			case 1:
 				hi = lo // a single instant
 			}
-			ops = append(ops, fmt.Sprintf("tomb %d %s %d %d", r.Intn(len(files)), keys[r.Intn(len(keys))], lo, hi))
+			ops = append(ops, fmt.Sprintf("%s %d %s %d %d", []string{"tomb", "tomb", "tombrace"}[r.Intn(3)], r.Intn(len(files)), keys[r.Intn(len(keys))], lo, hi))
 		}
 	}
 	nfilesNow := func() int { return len(files) }
@@ -425,7 +425,7 @@ func (rf *ref) step(f []string) string {
 		}
 		rf.insert(nf)
 		return "ok"
-	case "tomb":
+	case "tomb", "tombrace":
 		i := int(i64(f[1]))
 		if i < 0 || i >= len(rf.files) {
 			return "bad-op"
@@ -505,6 +505,8 @@ func (Prop) Oracle(c fw.Case, out []string) fw.Verdict {
 				n = len(sig)
 			}
 			return fw.Verdict{OK: false, Why: fmt.Sprintf("%.200s: output shape: %.400s", op, why), Signature: "shape " + sigWords(why)}
+		case strings.HasPrefix(o, "TOMBSTONE-NOT-ADVERTISED"):
+			return fw.Verdict{OK: false, Why: fmt.Sprintf("%.200s => %.300s", op, o), Signature: "a committed tombstone is not advertised by its file"}
 		case strings.HasPrefix(o, "READER-ERROR-"):
 			return fw.Verdict{OK: false, Why: fmt.Sprintf("%.200s => %.400s", op, o), Signature: "reader error during compaction: " + strings.Fields(o)[0]}
 		case o == "rerr not-injected":
